@@ -13,7 +13,7 @@ use byteorder::{BigEndian, ByteOrder};
 use crate::message::StunParseError;
 
 use super::{
-    padded_attr_len, Attribute, AttributeExt, AttributeStaticType, AttributeType, AttributeWrite,
+    check_len, padded_attr_len, Attribute, AttributeExt, AttributeStaticType, AttributeType, AttributeWrite,
     AttributeWriteExt, RawAttribute,
 };
 
@@ -224,6 +224,11 @@ impl<'a> TryFrom<&RawAttribute<'a>> for PasswordAlgorithm {
             return Err(StunParseError::InvalidAttributeData);
         }
         let algorithm = PasswordAlgorithmValue::read(&raw.value)?;
+        // the single algorithm and its (padded) parameters make up the entire value
+        check_len(
+            raw.value.len(),
+            ..=4 + padded_attr_len(algorithm.len() as usize),
+        )?;
         Ok(Self { algorithm })
     }
 }
